@@ -1076,6 +1076,11 @@ fn c14_shard(tier: &str, shard: usize, of: usize) -> i32 {
             machinery = Some(m);
             break;
         }
+        // deviation at the join: the wait for the worker may give up (timer lands first)
+        if let Err(schedx::Machinery(m)) = crate::c14::impatient_probe(s, &mut vios, &mut stats) {
+            machinery = Some(m);
+            break;
+        }
         if std::env::var("VX_SHARD_VERBOSE").is_ok() {
             eprintln!("ITEM {} execs={} cfg={} phase1=[{}]", i, stats.executions - before, s.cfg.short(), schedx::shist_short(&s.phase1));
         }
